@@ -189,13 +189,16 @@ ObsW(ws, o) ==
   THEN Bad(w1, {"C13"}, "leak:goroutine") ELSE w1
 
 \* descriptors are counted per process: every Watcher that is not completely closed may hold one
+\* a listed path below the scenario root as one string ("a/ab"), whether it was added absolute or relative
+JoinRel(p) == LET q == IF Len(p) > 0 /\ p[1] = "/" THEN Tail(p) ELSE p IN
+              FoldLeft(LAMBDA acc, c : IF acc = "" THEN c ELSE acc \o "/" \o c, "", q)
 Obs == /\ IsKind("obs")
        /\ IF Line.w \in DOMAIN W
           THEN W' = [W EXCEPT ![Line.w] = ObsW(@, Line)]
           ELSE W' = W
        /\ g' = LET g1 == [g EXCEPT !.ifds = Line.ifds, !.gor = Line.gor,
                                      !.lastobs = [nwd |-> Line.nwd, npath |-> Line.npath, nmarks |-> Len(Line.marks),
-                                                  paths |-> {Line.paths[i][Len(Line.paths[i])] : i \in 1..Len(Line.paths)}]]
+                                                  paths |-> {JoinRel(Line.paths[i]) : i \in 1..Len(Line.paths)}]]
                    alive == {w \in DOMAIN W' : ~(W'[w].phase = "closed" /\ W'[w].evc /\ W'[w].errc)} IN
                IF ~Line.q THEN [g1 EXCEPT !.infra = Append(@, "not quiescent at obs")]
                ELSE IF Line.pending = <<>> /\ Line.ifds > Cardinality(alive)
